@@ -138,3 +138,39 @@ func TestVerifReplayC14SnapshotRestoresReplicaSets(t *testing.T) {
 		t.Fatalf("after restoring the leader's snapshot the follower lists partition %s on %v, the leader (and the snapshot) on %v", pid, got, want)
 	}
 }
+
+// Replay of (*storage/wal.badgerWAL).DeleteGroup/order#left-as-a-fresh-store (C06/C14). Replica-set history on one node: the
+// dataset is created with its partition on this node, this node is taken out of the partition's replica set (its group is
+// stopped and its log deleted - the partition keeps the store object), and later put back. Putting it back must load the
+// group again; on the unrepaired tree the deleted store has no first entry and etcd/raft panics with "Entry not found"
+// (in production: inside the catalogue's ready loop, i.e. the process dies while applying the replica-set entry).
+func TestVerifReplayC14ReAddAfterRemove(t *testing.T) {
+	dm, _, stop := verifManager(t)
+	defer stop()
+	ds, err := dm.Create(context.Background(), &pb.Dataset{Dimension: 2, PartitionCount: 1, ReplicationFactor: 1})
+	if err != nil {
+		t.Fatal(err)
+	}
+	time.Sleep(500 * time.Millisecond)
+	p := ds.partitions[0]
+	if p.raft == nil {
+		t.Fatal("partition not loaded after create")
+	}
+	p.removeNode(1)
+	time.Sleep(300 * time.Millisecond)
+	if p.raft != nil {
+		t.Fatal("still loaded after this node left the replica set")
+	}
+	func() {
+		defer func() {
+			if r := recover(); r != nil {
+				t.Fatalf("re-adding this node to the replica set panicked: %v", r)
+			}
+		}()
+		p.addNode(1)
+	}()
+	time.Sleep(300 * time.Millisecond)
+	if p.raft == nil {
+		t.Fatal("re-added to the replica set, but the group is not loaded")
+	}
+}
